@@ -75,13 +75,13 @@ func (s Step) String() string {
 
 // Script is the params of one transaction.
 type Script struct {
-	Hold bool   `json:"hold,omitempty"` // obtain the store views once at command start and reuse them
-	Pre  []Step `json:"pre,omitempty"`  // module.BeforeCommandExecute (set/del/ev/uev only)
-	Cmd  []Step `json:"cmd,omitempty"`  // command.Execute
-	Post []Step `json:"post,omitempty"` // module.AfterCommandExecute (set/del/ev/uev only)
-	Fail bool   `json:"fail,omitempty"` // command returns an error after its steps
-	Salt int    `json:"salt,omitempty"` // makes transaction IDs distinct
-	VRead bool  `json:"vr,omitempty"`   // module.VerifyTransaction reads the universe and reports it (counted only)
+	Hold  bool   `json:"hold,omitempty"` // obtain the store views once at command start and reuse them
+	Pre   []Step `json:"pre,omitempty"`  // module.BeforeCommandExecute (set/del/ev/uev only)
+	Cmd   []Step `json:"cmd,omitempty"`  // command.Execute
+	Post  []Step `json:"post,omitempty"` // module.AfterCommandExecute (set/del/ev/uev only)
+	Fail  bool   `json:"fail,omitempty"` // command returns an error after its steps
+	Salt  int    `json:"salt,omitempty"` // makes transaction IDs distinct
+	VRead bool   `json:"vr,omitempty"`   // module.VerifyTransaction reads the universe and reports it (counted only)
 }
 
 // BlockScript is the block asset of the harness module.
